@@ -218,6 +218,32 @@ theorem C14_rebuild_unions_sound (find : Nat → Nat) (t : Tab) :
     ∀ u ∈ (rebuildPass find t).2, SameAfter find t u.1 u.2 :=
   foldl_pass_unions find t t (fun _ h => h) ([], []) (fun e he => by cases he) (fun u hu => by cases hu)
 
+/-! ### the surviving id of a group is its smallest -/
+
+theorem distinct_unique (l : Tab) (h : ValuesDistinct l) (i j : Nat) (w : List Nat)
+    (hi : (i, w) ∈ l) (hj : (j, w) ∈ l) : i = j := by
+  induction l with
+  | nil => cases hi
+  | cons x l ih =>
+    unfold ValuesDistinct at h ih
+    rw [List.pairwise_cons] at h
+    simp only [List.mem_cons] at hi hj
+    rcases hi with hi | hi <;> rcases hj with hj | hj
+    · rw [← hi] at hj; exact (Prod.mk.inj hj).1.symm
+    · exact absurd (by rw [← hi]) (h.1 (j, w) hj)
+    · exact absurd (by rw [← hj]) (h.1 (i, w) hi)
+    · exact ih h.2 hi hj
+
+/-- the id that survives for a rewritten container is at most the id of every old container that
+rewrites to it — with the merge function keeping the smaller id, the group's minimum wins -/
+theorem C14_rebuild_min (find : Nat → Nat) (t : Tab) (i : Nat) (w : List Nat)
+    (hi : (i, w) ∈ (rebuildPass find t).1) : ∀ e ∈ t, e.2.map find = w → i ≤ e.1 := by
+  intro e he hw
+  obtain ⟨j, hj, hm⟩ := C14_rebuild_present find t e he
+  rw [hw] at hm
+  have := distinct_unique _ (C14_rebuild_hashcons find t) i j w hi hm
+  omega
+
 /-! ### a canonical table is a fixpoint of the pass -/
 
 theorem insertMerge_fresh (t : Tab) (id : Nat) (v : List Nat) (h : ∀ e ∈ t, e.2 ≠ v) :
